@@ -93,8 +93,26 @@ def check(sid, props, tier="quick"):
     return res
 
 
+def import_seed(sid, wt, prop):
+    d = os.path.join(SEEDED, sid)
+    os.makedirs(d, exist_ok=True)
+    shutil.copy(os.path.join(wt, "SEED_patch.diff"), os.path.join(d, "patch.diff"))
+    for n in ("SEED_demo.sh", "SEED_demo.py"):
+        if os.path.exists(os.path.join(wt, n)):
+            shutil.copy(os.path.join(wt, n), os.path.join(d, "demo.sh" if n.endswith(".sh") else "demo.py"))
+    if os.path.exists(os.path.join(wt, "SEED_notes.md")):
+        shutil.copy(os.path.join(wt, "SEED_notes.md"), os.path.join(d, "notes.md"))
+    mp = os.path.join(d, "meta.json")
+    if not os.path.exists(mp):
+        json.dump({"property": prop}, open(mp, "w"))
+    print("imported", sid)
+
+
 def main():
     cmd = sys.argv[1] if len(sys.argv) > 1 else "all"
+    if cmd == "import":
+        import_seed(sys.argv[2], sys.argv[3], sys.argv[4])
+        return 0
     if cmd == "verify":
         print(json.dumps(verify(sys.argv[2]), indent=1))
     elif cmd == "check":
